@@ -284,6 +284,15 @@ class Check:
         return []
 
 
+def _dump_obs(obs):
+    if obs is None:
+        return None
+    try:
+        return sx.dumps(obs)
+    except Exception:      # observations of oracle-only cases need not be S-expr-able
+        return repr(obs)
+
+
 def _key(check, case):
     return hashlib.sha1(sx.dumps(check.request(case)).encode()).hexdigest()
 
@@ -440,7 +449,7 @@ def run(check, tier, seed, replay=None):
         os.makedirs(REPLAYS, exist_ok=True)
         path = os.path.join(REPLAYS, f"{pid}-{seed}-{int(time.time())}.json")
         doc = dict(property=pid, seed=seed, tier=tier, case=repr(case) if case is not None else None, request=sx.dumps(check.request(case)) if case is not None else None,
-                   impl_observation=sx.dumps(obs) if obs is not None else None,
+                   impl_observation=_dump_obs(obs),
                    oracle_clauses=cl, broken=broken, note=note,
                    how_to_run=f"./check {pid} --replay {os.path.relpath(path, VERIF)}")
         with open(path, "w") as f:
